@@ -131,6 +131,42 @@ def run(ctx):
                 for p in judge(before, dict(srv.scripts), abefore, srv.active, old, old, res):
                     viol.append({"state": "self-rename old=%s bystander=%s" % (o, by), "fault": fault, "what": p, "result": out[:80],
                                  "before": {k.decode(): v.decode("latin-1") for k, v in before.items()}, "after": {k.decode(): v.decode("latin-1") for k, v in srv.scripts.items()}})
+    # other names, and a server that sends the names of its listing as literals: the "does the new name exist" decision
+    # rests on the listing being read exactly
+    NAME_SETS = [(b"lists\\dev", b"lists\\prod", b"by\\st"), (b'say "hi"', b'say "bye"', b'q"'), ("ét\u00e9".encode(), "\u20ac".encode(), b"x y"),
+                 (b"a\\b", b"ab", b"a\\\\b"), (b"ab", b"a\\b", b"a"), (b"{5}", b"OK", b"NO x")]
+    for (old_, new_, other_), lit in itertools.product(NAME_SETS, (False, "safe")):
+        for (o, n, by) in states:
+            scripts = {}
+            if by:
+                scripts[other_] = r.choice(BODIES)
+            if o != "absent":
+                scripts[old_] = r.choice(BODIES)
+            if n != "absent":
+                scripts[new_] = r.choice(BODIES)
+            active = old_ if o == "active" else (new_ if n == "active" else None)
+            srv = refserver.RefServer(r, scripts=scripts, active=active, version=False, literal_names=lit)
+            s = msref.Session()
+            g = srv.greeting()
+            c_out = s.connect(b"", [], "user", "pw", server=srv)
+            reqs = ["c op=new", msref.req_connect(g, [], "user", "pw", later=list(s.wire.segments))]
+            outs = ["ok", c_out]
+            before, abefore = dict(srv.scripts), srv.active
+            nseg = len(s.wire.segments)
+            out = s.op("renamescript", old_.decode(), new_.decode())
+            reqs.append(msref.req_op("renamescript", old_.decode(), new_.decode(), later=list(s.wire.segments[nseg:])))
+            outs.append(out)
+            lines += reqs
+            expect += outs
+            evals += 1
+            nontriv += 1 if o != "absent" else 0
+            res = out.split(" ")[0][4:]
+            res = "crash" if res.startswith("crash") else res
+            for p in judge(before, dict(srv.scripts), abefore, srv.active, old_, new_, res):
+                viol.append({"state": "names %r→%r old=%s new=%s bystander=%s literal-listing=%s" % (old_, new_, o, n, by, lit), "fault": None, "what": p, "result": out[:80],
+                             "before": {k.decode(): v.decode("latin-1") for k, v in before.items()}, "after": {k.decode(): v.decode("latin-1") for k, v in srv.scripts.items()}})
+            if srv.log:
+                viol.append({"state": "names %r→%r" % (old_, new_), "fault": None, "what": "server protocol log: %r" % srv.log})
     model = run_driver(lines, live_table=False)
     diffs = [{"suite": "client", "request": l[:300], "impl": e[:300], "model": m[:300]} for l, e, m in zip(lines, expect, model) if e != m]
     seen, uv = set(), []
